@@ -143,7 +143,8 @@ def probe(rec: core.Recorder, shared: Shared, cid, expected: bool, rng: random.R
                     elif kind == "isub_array":
                         h -= np.ones(3) * 5
                     else:
-                        h.frequencies = np.array([-1, 0, 2])
+                        # (a bin whose content is unknown - NaN - beside the negative one changes nothing about the negative one)
+                        h.frequencies = np.array([-1, 0, 2]) if rng.random() < 0.5 else np.array([rng.choice([-1.0, -0.5]), float("nan"), 2.0])
                     observed = True
                 except (TypeError, ValueError):
                     observed = False
